@@ -49,8 +49,18 @@ tags: income
 [Matched]
 match: any(r.amount == txn.amount for r in orders)
 tags: matched
+
+[Split]
+match: contains("SPLIT") and amount > 1000
+category: Shopping
+subcategory: Wholesale
+
+[Split]
+match: contains("SPLIT")
+category: Food
+subcategory: Grocery
 '''
-RULE_EXPR = {6: 'startswith("APLPAY")', 1: 'contains("ALFA")', 2: 'contains("ALFA") and over and amount > 0', 4: '"PAYROLL" in description'}
+RULE_EXPR = {7: 'contains("SPLIT") and amount > 1000', 8: 'contains("SPLIT")', 6: 'startswith("APLPAY")', 1: 'contains("ALFA")', 2: 'contains("ALFA") and over and amount > 0', 4: '"PAYROLL" in description'}
 PROBES = [('nv1', 1500.0), ('nv1', 5.0), ('nv2', -800.0), ('nv3', -2.0), ('nv4', -7.0), ('nv3', 12.5), ('nvp', 5.0), ('nvq', 9.0)]
 
 
